@@ -70,8 +70,9 @@ ASSUMPTIONS = [
     "glyph names with lower-case hexadecimal digits after uni/u (accepted by pdfminer, pinned by its unit tests, "
     "rejected by AGL) and names where only some underscore components are unknown (DESIGN section 7) are outside "
     "the judged domain; they are still part of the model/implementation tie",
-    "a ToUnicode CMap that defines the same code twice is judged as 'last definition wins' except for pdfminer's "
-    "documented space/no-break-space rule, which is outside the judged domain (tie only)",
+    "a ToUnicode CMap that defines the same code twice is judged as 'last definition wins' with pdfminer's "
+    "documented space/no-break-space rule (a no-break-space definition does not replace a space) - stated exactly "
+    "(tuTextExact) and judged for every map since round 6",
     "the four base encoding tables are data (latin_enc.ENCODING); unknown base encoding names mean StandardEncoding",
     "widths are exact rationals; IEEE rounding is not modelled",
 ]
@@ -105,9 +106,39 @@ STATEMENT_STATUS: Dict[str, str] = {
     "C06_raw_precedence": "proved: fonts given with the BYTES of the embedded Type 1 program (tokeniser + "
                           "Type1FontHeaderParser stack machine + literal_name decoding) - construction succeeds and "
                           "text/advance are the specified ones whenever the header can be read",
+    "C06_raw_precedence_all": "proved: fonts given with the BYTES of the FontFile - construction raises exactly when reading the "
+                              "header raises; otherwise text and advance of EVERY code are the specified ones (no judged domain)",
     "header_ignored": "proved: the FontFile bytes have no influence unless the font is non-Type3, non-standard-14 and "
                       "has no Encoding entry",
     "exampleHeader_puts / put_underflow_ignored / odd_dict_raises": "proved by kernel evaluation of the tokeniser model on concrete headers",
+    "type3_matrix_usable / type3_matrix_default / type3_scale_default": "proved: PDFType3Font's FontMatrix handling (model type3Matrix, "
+        "constants regenerated from the source): six numbers are taken as they are, anything else (absent, not an array, other "
+        "length, non-number element) gives 1/1000; the driver receives the entry as written to the file",
+    "width_in_range / width_out_of_range": "proved: inside FirstChar..FirstChar+len(Widths)-1 the advance is the Widths entry x scale "
+                                           "whatever else the font says; outside (or without Widths) it is the standard-14 metric of "
+                                           "the code's character, else MissingWidth, x scale (LastChar is not consulted)",
+    "differences_runs / run_numbering": "proved: a Differences array of any number of runs - the i-th name of a run starting at "
+                                        "`first` gets code first + i for every i (no stop / wrap at 255, negative starts), "
+                                        "the last assignment in whichever run wins, other codes keep the base encoding",
+    "name2unicode_exact / name2unicode_exact_pdfminer / pdfminerAgl_judged / pdfminerAgl_deviations":
+        "proved: name2unicode on EVERY glyph name = AGL section 2 with exactly two deviations (either-case hexadecimal "
+        "digits; a component without a value makes the name undefined); on judged names this is AGL itself",
+    "enc_text_all / encoding_text_all / C06_unicode_precedence_all / C06_text_precedence_all / C06_width_precedence_all / "
+    "specP_judged / C06_precedence_all_pdfminer":
+        "proved: the FULL statements - every font dictionary of the modelled shape, every code, NO judged-domain "
+        "hypothesis (glyph names by the exact algorithm, ToUnicode by the exact rule); equal to the property's "
+        "specification on the judged cells",
+    "tounicode_exact / tounicode_exact_noclash / tounicode_last_wins_cex": "proved: for EVERY ToUnicode map the value of a code is "
+        "the most recent definition except that U+00A0 does not replace U+0020; equals 'last wins' without such a pair; "
+        "'last wins' proved false in general (documented deviation of pdfminer)",
+    "C06_unicode_precedence_exact / C06_text_precedence_exact / C06_width_precedence_exact / judgedCode_exact / width_of_unicode":
+        "proved: the precedence theorems with NO exclusion of space/no-break-space maps (judged domain = judged glyph "
+        "name only); width_of_unicode holds for every code without hypothesis",
+    "t1_roundtrip / t1_roundtrip_puts": "proved: for EVERY written header (any leading white space / comments; dup <key> "
+                                        "/<name> put lines with signed keys, leading zeros, #xx escapes, any white "
+                                        "space / comments between tokens, inert keywords, stray integers) tokeniser + "
+                                        "stack machine return exactly the written pairs, no exception (was: "
+                                        "kernel-evaluated instances only); rtItems_ok: non-vacuity",
     "getFont_transparent / font_cache_transparent": "proved: PDFResourceManager.get_font with or without caching returns "
                                                     "for every request sequence exactly the freshly constructed fonts",
 }
@@ -281,6 +312,35 @@ def agl_spec(name: Optional[str]) -> str:
     return "".join(agl_component(c) for c in base.split("_"))
 
 
+def agl_exact_component(c: str) -> str:
+    """One component under pdfminer's documented deviation (D1): hexadecimal digits of either case."""
+    gl = data()["gl"]
+    if c in gl:
+        return gl[c]
+    if c.startswith("uni"):
+        r = c[3:]
+        if r and all(ch in AHEX for ch in r) and len(r) % 4 == 0:
+            vals = [int(r[i:i + 4], 16) for i in range(0, len(r), 4)]
+            if all(_scalar(v) for v in vals):
+                return "".join(map(chr, vals))
+    if c.startswith("u"):
+        r = c[1:]
+        if 4 <= len(r) <= 6 and all(ch in AHEX for ch in r):
+            v = int(r, 16)
+            if _scalar(v):
+                return chr(v)
+    return ""
+
+
+def agl_exact(name: Optional[str]) -> str:
+    """The exact algorithm of theorem `name2unicode_exact` (Lean `pdfminerAgl`), written independently: AGL section 2
+    with (D1) either-case hexadecimal digits and (D2) a component without a value makes the name undefined ('')."""
+    if name is None:
+        return ""
+    vals = [agl_exact_component(c) for c in name.split(".")[0].split("_")]
+    return "" if any(v == "" for v in vals) else "".join(vals)
+
+
 def _lenient_component(c: str) -> bool:
     gl = data()["gl"]
     if c in gl:
@@ -366,9 +426,9 @@ def be(b: bytes) -> int:
 
 
 def expand_tounicode(entries) -> Tuple[Dict[int, str], bool]:
-    """Specification of a ToUnicode map: list of (code, text) definitions, last definition wins.
-    Second result: False when some code is defined both as space and as no-break space (pdfminer's
-    documented special rule; such maps are outside the judged domain)."""
+    """Specification of a ToUnicode map: list of (code, text) definitions; the last definition of a code wins,
+    except (pdfminer's documented rule, stated exactly in Lean as `tuTextExact`) that a definition as
+    no-break space does not replace a space.  Every map is judged (second result always True)."""
     defs: List[Tuple[int, str]] = []
 
     def put(code, raw):
@@ -391,9 +451,12 @@ def expand_tounicode(entries) -> Tuple[Dict[int, str], bool]:
                 continue
             for code, d in zip(range(be(lo), be(hi) + 1), e[3]):
                 put(code, bytes.fromhex(d))
-    spaces = {c for c, t in defs if t == " "}
-    judged = not any(t == "\u00a0" and c in spaces for c, t in defs)
-    return dict(defs), judged
+    eff: Dict[int, str] = {}
+    for c, t in defs:
+        if t == "\u00a0" and eff.get(c) == " ":
+            continue
+        eff[c] = t
+    return eff, True
 
 
 def name_of_tok(t) -> Optional[str]:
@@ -469,9 +532,10 @@ def font_spec_eval(fs: Dict[str, Any]) -> List[Tuple[Optional[str], Optional[F]]
                 text = None
             else:
                 s = name_of_tok(nm)
-                if not agl_domain(s):
-                    judged = False
-                t = agl_spec(s)
+                # every glyph name is judged (round 6): the exact algorithm; inside the AGL domain it IS AGL
+                t = agl_exact(s)
+                if agl_domain(s) and t != agl_spec(s):
+                    t = agl_spec(s)           # cannot happen (theorem pdfminerAgl_judged); keeps the AGL oracle in force
                 text = t if t != "" else None
         shown = text if text is not None else PLACEHOLDER % code
         # advance
@@ -548,10 +612,18 @@ def font_line(fs: Dict[str, Any]) -> str:
         else:
             data_, l1 = type1_header(ff)
             ws += ["F", "-" if l1 is None else str(l1), C.hx(data_)]
-    if fs["fm"] is None:
-        ws += ["M", "none"]
+    # the FontMatrix entry as it is written to the file; the MODEL decides whether it is usable (type3Matrix)
+    if fs["fm"] is not None:
+        ws += ["M", "["] + [C.frac_str(F(x)) for x in fs["fm"]] + ["]"]
+    elif fs.get("t3_badmatrix") is not None and fs["subtype"] == "Type3":
+        bm = fs["t3_badmatrix"]
+        if isinstance(bm, list):
+            ws += ["M", "["] + [C.frac_str(F(x)) if isinstance(x, (int, F)) or (isinstance(x, str) and "/" in x) else "x"
+                                for x in bm] + ["]"]
+        else:
+            ws += ["M", "notlist"]
     else:
-        ws += ["M"] + [C.frac_str(F(x)) for x in fs["fm"]]
+        ws += ["M", "none"]
     return " ".join(ws)
 
 
@@ -1096,10 +1168,20 @@ def gen_tounicode(rng) -> Tuple[List[Any], List[str]]:
     if ents and rng.random() < 0.3:
         # redefine a code (space then no-break space is pdfminer's special case)
         code = rng.randint(0, 255)
-        a, b = rng.choice([("0020", "00A0"), ("00A0", "0020"), ("0041", "0042"), ("0020", "00A0")])
-        ents.append(["c", "%02X" % code, a])
-        ents.append(["c", "%02X" % code, b])
+        seq = rng.choice([("0020", "00A0"), ("00A0", "0020"), ("0041", "0042"), ("0020", "00A0"),
+                          ("0020", "00A0", "00A0"), ("00A0", "0020", "00A0"), ("0020", "0058", "00A0"),
+                          ("0020", "00A0", "0058"), ("0020", "00A0", "0020", "00A0"), ("00200020", "00A0"),
+                          ("0020", "00A000A0"), ("0020", "D83D00A0")])
+        for k, a in enumerate(seq):
+            if k and rng.random() < 0.3 and 0 < code < 255:
+                # the redefinition through a range that covers the code
+                ents.append(["r", "%02X" % (code - 1), "%02X" % (code + 1), "%04X" % (int(a[-4:], 16) - 1)]
+                            if len(a) == 4 else ["c", "%02X" % code, a])
+            else:
+                ents.append(["c", "%02X" % code, a])
         kinds.append("tu:redefine")
+        if "00A0" in seq and "0020" in seq:
+            kinds.append("tu:space-nbsp-pair")
     return ents, kinds
 
 
@@ -1228,7 +1310,8 @@ def gen_font(rng, force: Optional[str] = None) -> Tuple[Dict[str, Any], List[str
     if is_t3 and rng.random() < 0.08:
         kinds.append("t3:no-matrix")
         if rng.random() < 0.5:
-            fs["t3_badmatrix"] = rng.choice([[1, 0, 0], "Foo", [1, 0, 0, "x", 0, 0], []])
+            fs["t3_badmatrix"] = rng.choice([[1, 0, 0], "Foo", [1, 0, 0, "x", 0, 0], [], [2, 0, 0, 2, 0, 0, 0],
+                                             [2, 0, 0, 2, 0], ["x", 0, 0, 1, 0, 0], [1, 0, 0, 1, 0, "x"]])
             kinds.append("t3:bad-matrix")
         fs["t3_nobbox"] = rng.random() < 0.5
     elif is_t3:
@@ -1285,6 +1368,17 @@ def check_names(ctx: C.Ctx, names: List[Tuple[Any, List[str]]], label: str = "")
                      "impl_value": impl.startswith("V"), "spec_value": exp.startswith("V")}))
         else:
             ctx.branch("name:outside-judged-domain")
+        # (prop, every name) implementation against the exact algorithm AGL + (D1) + (D2)
+        expx = reply_of_spec_text(agl_exact(s))
+        if got != expx:
+            cfail(ctx, C.Failure(
+                "name2unicode differs from the exact glyph-name algorithm (AGL with either-case hexadecimal digits; "
+                "a component without a value makes the name undefined)",
+                {"op": "name", "name": name_arg(tok)}, expx, impl,
+                {"op": "name", "kinds": kinds, "raised": impl.startswith("EXC"), "exact": True,
+                 "impl_value": impl.startswith("V"), "spec_value": expx.startswith("V")}))
+        lines.append("aglx " + name_arg(tok))
+        meta.append(("aglx", tok, expx))
         lines.append("n2u " + name_arg(tok))
         meta.append(("n2u", tok, impl))
         lines.append("agl " + name_arg(tok))
@@ -1293,7 +1387,7 @@ def check_names(ctx: C.Ctx, names: List[Tuple[Any, List[str]]], label: str = "")
         outs = ctx.driver.ask(lines)
         for (op, tok, mine), m_out in zip(meta, outs):
             if mine != m_out:
-                ctx.disagree(op if op == "n2u" else "spec-twin:agl", {"name": name_arg(tok)}, mine, m_out)
+                ctx.disagree(op if op == "n2u" else "spec-twin:" + op, {"name": name_arg(tok)}, mine, m_out)
 
 
 def run_names(ctx: C.Ctx) -> None:
@@ -1403,6 +1497,22 @@ def run_encodings(ctx: C.Ctx) -> None:
     for _ in range(ctx.n(800, 20000)):
         diff, kinds = gen_diff(rng)
         cases.append((rng.choice(ENC_CHOICES), diff, kinds))
+    for _ in range(ctx.n(60, 1500)):
+        # Differences written as RUNS (theorem differences_runs): several runs, runs that cross 255 or start below 0 or
+        # beyond 255, runs that re-assign codes of earlier runs
+        diff = []
+        kinds = ["diff:runs"]
+        for _ in range(rng.randint(1, 5)):
+            first = rng.choice([rng.randint(0, 255), rng.randint(248, 262), rng.randint(-4, 2), 255, 256])
+            k = rng.randint(0, 9)
+            if first + k > 256:
+                kinds.append("diff:run-crosses-255")
+            if first < 0:
+                kinds.append("diff:run-negative-start")
+            diff.append(first)
+            for _ in range(k):
+                diff.append(("s", gen_component(rng, "list")[0]) if rng.random() < 0.7 else gen_name(rng)[0])
+        cases.append((rng.choice(ENC_CHOICES), diff, sorted(set(kinds))))
     check_encodings(ctx, cases)
 
 
@@ -1419,6 +1529,8 @@ def parse_font_reply(line: str) -> Any:
         if c == "?":
             cells.append((None, None))
             continue
+        if c.startswith("!"):                 # a cell outside the property's AGL domain: judged by the exact algorithm
+            c = c[1:]
         t, w = c.split("|")
         cells.append(("" if t == "-" else "".join(chr(int(x, 16)) for x in t.split(",")), F(w)))
     return cells
@@ -1638,6 +1750,19 @@ def run_fonts(ctx: C.Ctx) -> None:
             fonts.append((fs, ["font:plain"]))
     for _ in range(ctx.n(750, 10000)):
         fonts.append(gen_font(rng))
+    # Type3 fonts with every kind of unusable FontMatrix entry (model `type3Matrix`, theorems type3_matrix_*)
+    for bm in ([1, 0, 0], "Foo", [1, 0, 0, "x", 0, 0], [], [2, 0, 0, 2, 0, 0, 0], [2, 0, 0, 2, 0], ["x", 0, 0, 1, 0, 0],
+               [1, 0, 0, 1, 0, "x"], [0, 0, 0, 0, 0, 0]):
+        for _ in range(ctx.n(2, 20)):
+            fs, kinds = gen_font(rng, force="Type3")
+            fs["fm"] = None
+            fs["t3_badmatrix"] = bm
+            tag = "notlist" if not isinstance(bm, list) else "len%d%s" % (len(bm), "+nonnumber" if "x" in bm else "")
+            if bm == [0, 0, 0, 0, 0, 0]:
+                fs["fm"] = ["0", "0", "0", "0", "0", "0"]
+                fs.pop("t3_badmatrix")
+                tag = "zero-matrix-usable"
+            fonts.append((fs, [k for k in kinds if not k.startswith("t3:")] + ["t3:matrix-entry:" + tag]))
     # fonts whose built-in encoding (the bytes of the embedded Type 1 header) is what decides the text
     n_builtin = 0
     while n_builtin < ctx.n(200, 3000):
@@ -1722,6 +1847,228 @@ def run_t1puts(ctx: C.Ctx) -> None:
         for ln, a, b in zip(lines, mine, ctx.driver.ask(lines)):
             if a != b:
                 ctx.disagree("t1puts", {"header": ln[7:][:400]}, a[:200], b[:200])
+
+
+# ---------------------------------------------------------------------------------------------
+# round trip of WRITTEN Type 1 headers (theorem t1_roundtrip): a spelling -> bytes (Lean `writeHeader`, and
+# independently here) -> the real Type1FontHeaderParser must return exactly the written pairs
+
+_NAME_RAW = [c for c in range(33, 127) if c not in b"#()<>[]{}/%"]
+_T1_WORDS = [b"dict", b"begin", b"readonly", b"def", b"array", b"for", b"currentdict", b"end", b"currentfile",
+             b"eexec", b"index", b"exch", b"dup", b"FontDirectory", b"known", b"pop", b"ifelse", b"putt", b"truee",
+             b"pu", b"False", b"True", b"PUT"]
+
+
+def gen_sep(rng, nonempty: bool) -> List[Any]:
+    n = rng.choice([0, 1, 1, 1, 2, 3]) if not nonempty else rng.choice([1, 1, 1, 2, 3])
+    out = []
+    for _ in range(n):
+        if rng.random() < 0.8:
+            out.append(("w", rng.choice([32, 32, 32, 10, 13, 9, 12, 0])))
+        else:
+            body = bytes(rng.choice([32, 37, 47, 40, 41, 60, 62, 91, 123, 125, 0, 255, 112, 117, 116, 35, 65, 48])
+                         for _ in range(rng.randint(0, 6)))
+            if rng.random() < 0.3:
+                body = b" dup 9 /X put"
+            out.append(("c", body, rng.choice([10, 13])))
+    return out
+
+
+def sep_bytes(g) -> bytes:
+    return b"".join(bytes([it[1]]) if it[0] == "w" else b"%" + it[1] + bytes([it[2]]) for it in g)
+
+
+def sep_word(g) -> str:
+    if not g:
+        return "-"
+    return ",".join("w%02x" % it[1] if it[0] == "w" else "c%s:%02x" % (C.hx(it[1]), it[2]) for it in g)
+
+
+def gen_spelled_name(rng) -> List[Any]:
+    kind = rng.random()
+    items: List[Any] = []
+    if kind < 0.1:
+        return items
+    for _ in range(rng.randint(1, 8)):
+        r = rng.random()
+        if r < 0.7:
+            items.append(("r", rng.choice(_NAME_RAW)))
+        elif r < 0.85:
+            v = rng.choice([0x5F, 0x2E, 0x20, 0x23, 0x2F, 0x28, 0x00, 0x7F, 0x41, 0x80, 0xFF, rng.randrange(256)])
+            h = "%02X" % v if rng.random() < 0.5 else "%02x" % v
+            items.append(("e", ord(h[0]), ord(h[1])))
+        else:
+            # a UTF-8 sequence (valid or not) through escapes
+            seq = rng.choice([b"\xc3\xa9", b"\xe2\x82\xac", b"\xf0\x9f\x98\x80", b"\xc3", b"\xed\xa0\x80", b"\xc0\x80",
+                              b"\xf4\x90\x80\x80", b"\xe0\x9f\xbf"])
+            for v in seq:
+                h = "%02X" % v
+                items.append(("e", ord(h[0]), ord(h[1])))
+    return items
+
+
+def name_bytes(items) -> bytes:
+    return b"".join(bytes([it[1]]) if it[0] == "r" else b"#" + bytes([it[1], it[2]]) for it in items)
+
+
+def name_value(items) -> bytes:
+    return bytes(it[1] if it[0] == "r" else int(chr(it[1]) + chr(it[2]), 16) for it in items)
+
+
+def name_word(items) -> str:
+    if not items:
+        return "-"
+    return ",".join("r%02x" % it[1] if it[0] == "r" else "e%02x%02x" % (it[1], it[2]) for it in items)
+
+
+def gen_digits(rng) -> Tuple[str, str]:
+    sign = rng.choice(["n", "n", "n", "p", "m"])
+    r = rng.random()
+    if r < 0.6:
+        ds = str(rng.randrange(256))
+    elif r < 0.8:
+        ds = "0" * rng.randint(1, 3) + str(rng.randrange(300))
+    elif r < 0.95:
+        ds = str(rng.randrange(10 ** rng.randint(3, 12)))
+    else:
+        ds = "".join(rng.choice("0123456789") for _ in range(rng.randint(20, 60)))
+    return sign, ds
+
+
+_SIGN = {"n": b"", "p": b"+", "m": b"-"}
+
+
+def gen_header_items(rng) -> List[Any]:
+    items: List[Any] = []
+    for _ in range(rng.randint(0, 10)):
+        r = rng.random()
+        if r < 0.6:
+            sign, ds = gen_digits(rng)
+            items.append(("P", sign, ds, gen_spelled_name(rng), gen_sep(rng, True), gen_sep(rng, False),
+                          gen_sep(rng, True), gen_sep(rng, True)))
+        elif r < 0.85:
+            w = rng.choice(_T1_WORDS) if rng.random() < 0.8 else \
+                bytes(rng.choice(b"abcdefghijklmnopqrstuvwxyzABCDEFGHIJKLMNOPQRSTUVWXYZ") for _ in range(rng.randint(1, 6)))
+            if w in (b"put", b"true", b"false"):
+                w = b"dup"
+            items.append(("W", w, gen_sep(rng, True)))
+        else:
+            sign, ds = gen_digits(rng)
+            items.append(("N", sign, ds, gen_sep(rng, True)))
+    return items
+
+
+def header_item_bytes(it) -> bytes:
+    if it[0] == "P":
+        return (b"dup" + sep_bytes(it[4]) + _SIGN[it[1]] + it[2].encode() + sep_bytes(it[5]) + b"/" + name_bytes(it[3])
+                + sep_bytes(it[6]) + b"put" + sep_bytes(it[7]))
+    if it[0] == "W":
+        return it[1] + sep_bytes(it[2])
+    return _SIGN[it[1]] + it[2].encode() + sep_bytes(it[3])
+
+
+def header_item_word(it) -> str:
+    if it[0] == "P":
+        return "|".join(["P", it[1], it[2], name_word(it[3]), sep_word(it[4]), sep_word(it[5]), sep_word(it[6]),
+                         sep_word(it[7])])
+    if it[0] == "W":
+        return "|".join(["W", C.hx(it[1]), sep_word(it[2])])
+    return "|".join(["N", it[1], it[2], sep_word(it[3])])
+
+
+def header_intent(items) -> str:
+    out = []
+    for it in items:
+        if it[0] != "P":
+            continue
+        k = int(it[2]) * (-1 if it[1] == "m" else 1)
+        v = name_value(it[3])
+        try:
+            nm = v.decode("utf-8")
+            out.append("%d:%s" % (k, name_arg(("s", nm))))
+        except UnicodeDecodeError:
+            out.append("%d:b" % k)
+    return " ".join(out) or "-"
+
+
+def written_header(pad, items) -> bytes:
+    return sep_bytes(pad) + b"".join(header_item_bytes(it) for it in items)
+
+
+def t1write_ok(pad, items) -> bool:
+    return impl_t1puts(written_header(pad, items)) == header_intent(items)
+
+
+def t1write_json(pad, items) -> Dict[str, Any]:
+    return {"op": "t1write", "pad": sep_word(pad), "items": [header_item_word(it) for it in items],
+            "header": C.hx(written_header(pad, items))[:2000]}
+
+
+def _sep_from_word(w: str):
+    if w == "-":
+        return []
+    out = []
+    for it in w.split(","):
+        if it[0] == "w":
+            out.append(("w", int(it[1:], 16)))
+        else:
+            b, e = it[1:].split(":")
+            out.append(("c", bytes.fromhex(b if b != "-" else ""), int(e, 16)))
+    return out
+
+
+def _item_from_word(w: str):
+    f = w.split("|")
+    if f[0] == "P":
+        nm = [] if f[3] == "-" else [("r", int(x[1:], 16)) if x[0] == "r" else ("e", int(x[1:3], 16), int(x[3:5], 16))
+                                     for x in f[3].split(",")]
+        return ("P", f[1], f[2], nm, _sep_from_word(f[4]), _sep_from_word(f[5]), _sep_from_word(f[6]), _sep_from_word(f[7]))
+    if f[0] == "W":
+        return ("W", bytes.fromhex(f[1]), _sep_from_word(f[2]))
+    return ("N", f[1], f[2], _sep_from_word(f[3]))
+
+
+def check_t1write(ctx: C.Ctx, cases: List[Tuple[Any, Any]], label: str = "") -> None:
+    lines, meta = [], []
+    for pad, items in cases:
+        data_ = written_header(pad, items)
+        intent = header_intent(items)
+        impl = impl_t1puts(data_)
+        kinds = sorted(set(it[0] for it in items))
+        ctx.case(("t1write", data_), any(it[0] == "P" for it in items),
+                 branch="t1write:" + (label or "+".join(kinds) or "empty"))
+        for it in items:
+            if it[0] == "P":
+                ctx.branch("t1write.put:" + ("g2-empty" if not it[5] else "g2") + ("/esc" if any(x[0] == "e" for x in it[3]) else "")
+                           + ("/sign" if it[1] != "n" else ""))
+            for g in ([it[4], it[5], it[6], it[7]] if it[0] == "P" else [it[-1]]):
+                for x in g:
+                    ctx.branch("t1write.sep:" + ("comment" if x[0] == "c" else "ws%d" % x[1]))
+        if impl != intent:
+            small = C.ddmin(list(items), lambda sub: not t1write_ok(pad, sub)) if len(items) > 1 else list(items)
+            if t1write_ok(pad, small):
+                small = list(items)
+            cfail(ctx, C.Failure("Type1FontHeaderParser: a written header (dup <key> /<name> put lines between inert "
+                                 "keywords, any white space / comments) is not read back as the written (key, name) pairs",
+                                 t1write_json(pad, small), header_intent(small),
+                                 impl_t1puts(written_header(pad, small)), {"op": "t1write"}))
+        lines.append("t1write " + sep_word(pad) + "".join(" " + header_item_word(it) for it in items))
+        meta.append((data_, impl, pad, items))
+    if ctx.driver is not None and lines:
+        for ln, (data_, impl, pad, items), rep in zip(lines, meta, ctx.driver.ask(lines)):
+            parts = rep.split(" ", 1)
+            if parts[0] != C.hx(data_):
+                ctx.disagree("t1write.bytes", t1write_json(pad, items), C.hx(data_)[:300], parts[0][:300])
+            elif len(parts) < 2 or parts[1] != impl:
+                ctx.disagree("t1write.roundtrip-rhs", t1write_json(pad, items), impl[:300], rep[-300:])
+
+
+def run_t1write(ctx: C.Ctx) -> None:
+    rng = ctx.rng
+    cases = []
+    for _ in range(ctx.n(400, 8000)):
+        cases.append((gen_sep(rng, False), gen_header_items(rng)))
+    check_t1write(ctx, cases)
 
 
 def run_utf16(ctx: C.Ctx) -> None:
@@ -1931,6 +2278,8 @@ def replay(ctx: C.Ctx, doc, from_corpus: bool = False) -> None:
         check_encodings(ctx, [(inp["base"], diff_from_json(inp["differences"]), [label])])
     elif op == "font":
         check_fonts(ctx, [(f2, [label + ":context"]) for f2 in inp.get("doc", [])] + [(inp["font"], [label])])
+    elif op == "t1write":
+        check_t1write(ctx, [(_sep_from_word(inp["pad"]), [_item_from_word(w) for w in inp["items"]])], label)
     elif op == "table":
         run_refdata(ctx, (inp["table"], inp["key"]))
     elif op == "table-indep":
@@ -1944,6 +2293,7 @@ def run(ctx: C.Ctx) -> None:
     run_tables(ctx)
     run_utf16(ctx)
     run_t1puts(ctx)
+    run_t1write(ctx)
     run_names(ctx)
     run_encodings(ctx)
     run_fonts(ctx)
